@@ -17,7 +17,7 @@ Proof.
   destruct (read_request _ _ _ _) as [[buf r | | | ] sg']; cbn; try discriminate.
   destruct (te_present (q_hdrs r) && negb (te_final_chunked (q_hdrs r))); cbn; try discriminate.
   destruct (hook_of a r); cbn; try discriminate.
-  - destruct (run_handler _ _ _) as [[resps ok] rest]; cbn.
+  - destruct (run_handler _ _ _) as [[[resps ok] rest] loc]; cbn.
     destruct ok, (connection_close (q_hdrs r)), (existsb rs_close resps); cbn; auto; discriminate.
   - reflexivity.
 Qed.
@@ -30,7 +30,7 @@ Proof.
   destruct (read_request _ _ _ _) as [[buf r | | | ] sg']; cbn; try discriminate.
   destruct (te_present (q_hdrs r) && negb (te_final_chunked (q_hdrs r))); cbn; try discriminate.
   destruct (hook_of a r); cbn; try discriminate.
-  destruct (run_handler _ _ _) as [[resps ok] rest]; cbn. reflexivity.
+  destruct (run_handler _ _ _) as [[[resps ok] rest] loc]; cbn. reflexivity.
 Qed.
 
 (* ------------------------------------------------------------------ the two loops *)
